@@ -53,11 +53,15 @@ pub fn build_graph<IntT: for<'a> UInt<'a>>(
     let all_kmers: DashMap<IntT, Vec<IntT>> = DashMap::new();
     let kmer_samples: DashMap<IntT, BitSet> = DashMap::new();
 
+    #[cfg(feature = "verif-hooks")]
+    crate::verif_trace::pool_init("build_graph", nb_threads);
     ThreadPoolBuilder::new()
         .num_threads(nb_threads)
         .build_global()
         .expect("failed to build the thread pool");
 
+    #[cfg(feature = "verif-hooks")]
+    crate::verif_trace::pool_done("build_graph");
     let kmer_iter = ska_array.iter();
 
     kmer_iter
